@@ -437,6 +437,9 @@ pub struct Built {
     pub gtruth: Vec<String>,
     pub root: Node,
     pub free_clusters: u32,
+    /// raw FS-info values as stored (FAT32)
+    pub fs_free: Option<u32>,
+    pub fs_next: Option<u32>,
     pub freedoms: BTreeMap<String, u64>,
 }
 
@@ -1137,16 +1140,36 @@ pub fn random_volume(rng: &mut SplitMix64, bits: u8) -> Built {
 
     let mut st = Store::default();
     let (fs_free, fs_next) = if bits == 32 {
-        let f = match rng.below(4) {
-            0 => {
+        // the stored values are what `G geo … fsinfo_free= fsinfo_next=` reports, valid or not
+        let f = match rng.below(8) {
+            0 | 1 => {
                 *fr.entry("fsinfo.free_unknown".into()).or_default() += 1;
                 None
             }
+            2 => {
+                // out of range: more free clusters than the volume has
+                *fr.entry("fsinfo.free_out_of_range".into()).or_default() += 1;
+                Some(*rng.pick(&[clusters + 1, clusters + 2, 0xFFFF_FFF0, 0x7FFF_FFFF]))
+            }
             _ => Some(free_clusters),
         };
-        let n = match rng.below(4) {
+        let n = match rng.below(12) {
             0 => None,
             1 => Some(2),
+            2 => {
+                *fr.entry("fsinfo.next_0_or_1".into()).or_default() += 1;
+                Some(rng.below(2) as u32)
+            }
+            3 => {
+                // the last value still accepted: total + 2
+                *fr.entry("fsinfo.next_total+2".into()).or_default() += 1;
+                Some(clusters + 2)
+            }
+            4 | 5 => {
+                *fr.entry("fsinfo.next_out_of_range".into()).or_default() += 1;
+                Some(*rng.pick(&[clusters + 3, clusters + 4, 2 * clusters, 0x0020_0000.max(clusters + 3), 0xFFFF_FFF0, 0x0FFF_FFFF]))
+            }
+            6 => Some(clusters + 1),
             _ => Some(2 + rng.below(clusters as u64) as u32),
         };
         (f, n)
@@ -1226,6 +1249,8 @@ pub fn random_volume(rng: &mut SplitMix64, bits: u8) -> Built {
         gtruth: gt,
         root,
         free_clusters,
+        fs_free,
+        fs_next,
         freedoms: fr,
     }
 }
